@@ -147,3 +147,45 @@ Example discr_premises_satisfiable :
   let axes := [mk_axis 3 0 1 true true] in
   Forall ax_ok axes /\ Forall ax_exact axes /\ cell_volume axes <> 1.
 Proof. exact discr_example. Qed.
+
+(* ================= product spaces (ProductSpace{Const,Array}Weighting), arbitrary nesting ========== *)
+
+(* one node: <x, y> = c * sum_i <x_i, y_i>_i  resp.  sum_i w_i <x_i, y_i>_i *)
+Theorem pspace_inner_component_sum : forall q w c cs (xs ys : list (@elem R)) (v : list R),
+  collect2 (sp_inner q) (c :: cs) xs ys = Ok v ->
+  sp_inner q (SProd w (PFin 2) (c :: cs)) (ENode xs) (ENode ys)
+  = Ok (match w with PWConst k => k * sumf v | PWArr a => dot v a end).
+Proof. exact pspace_inner_node. Qed.
+Print Assumptions pspace_inner_component_sum.
+
+(* all trees (any depth, any arity >= 1, tensor or discretized leaves, constant or array weights
+   at every level), all nodes and leaves with exponent 2 -- [hshape s x0]: the inner product never
+   raises, equals the weighted dot product of the flattened data (weights = leaf weight times the
+   component weights along the path), is symmetric, linear in the first argument, positive
+   definite and satisfies Cauchy-Schwarz.  [same_shape x0 x]: x has the shape of x0. *)
+Theorem pspace_inner_product_space : forall q (s : @space R) (x0 : @elem R), hshape s x0 ->
+  let ok := same_shape x0 in let ip := tree_ip q s x0 in
+  (forall x y, ok x -> ok y -> sp_inner q s x y = Ok (ip x y)) /\
+  (forall x y, ok x -> ok y -> ip x y = wdot (flat_w q s x0) (flat x) (flat y)) /\
+  (forall x y, ok x -> ok y -> ip x y = ip y x) /\
+  (forall a x y z, ok x -> ok y -> ok z -> ip (eadd (escal a x) y) z = a * ip x z + ip y z) /\
+  (forall x, ok x -> 0 <= ip x x /\ (ip x x = 0 -> Forall (fun t => t = 0) (flat x))) /\
+  (forall x y, ok x -> ok y -> ip x y * ip x y <= ip x x * ip y y).
+Proof. exact pspace_ips. Qed.
+Print Assumptions pspace_inner_product_space.
+
+Example pspace_premise_satisfiable :
+  let lf := SLeaf (LTensor true false (LConst 2) (PFin 2)) in
+  let s := SProd (PWArr [1; 3]) (PFin 2) [lf; SProd (PWConst (/ 2)) (PFin 2) [lf]] in
+  hshape s (ENode [ELeaf [1; 2]; ENode [ELeaf [0; 5; 1]]]).
+Proof. exact hilbert_tree_example. Qed.
+
+(* FULL statement "dist(x,y) = norm(x-y) on every product space" is FALSE of the faithful model of
+   today's code (q_ps2_via_inner = true): on ProductSpace(rn(3, exponent=1), 2, exponent=2) dist
+   returns a value while norm(x - y) raises NotImplementedError
+   (finding pspace-exp2-over-exp1-components). *)
+Theorem pspace_dist_norm_refuted : exists q (s : @space R) (x y : @elem R),
+  q_ps2_via_inner q = true /\
+  (exists d, sp_dist q s x y = Ok d) /\ sp_norm q s (esub x y) = NotImpl.
+Proof. exact pspace_norm_refuted. Qed.
+Print Assumptions pspace_dist_norm_refuted.
